@@ -2,6 +2,7 @@ import Hgxv.Proofs.C16Chain
 import Hgxv.Proofs.C16Match
 import Hgxv.Proofs.C16Output
 import Hgxv.Proofs.C16Sample
+import Hgxv.Proofs.C16Relabel
 /-! # C16 — Hy-MMSBM sampler: valid hypergraphs, conditioning respected, seed decides the sequence
 
 Theorems about the model `Hgxv/Model/C16.lean`.  Every statement is for **all oracle values**: all picks of
@@ -544,6 +545,80 @@ theorem C16_sample_hyg (labels : List Nat) (edges : Config) (t : OwnTape)
       subst hxi
       rw [hdeg i hi, e1 i hi, d1 i]
 
+/-! ## node labels of any type
+
+`C16_sample_hyg` is stated for labels that are naturals.  The sampler sees a label only through equality with other
+labels (`transformG`: position in the encoder's classes, `relabelG`: indexing the classes, label tuples as dictionary
+keys), so its run on labels of ANY type `α` - integers of any size, negative numbers, floats, strings, fractions - is
+the image of a run on naturals under the naming `f` of the labels, for every injective `f` (an infinite label type
+has one extending any finite class list).  In particular the internal ids are never an output: every node of every
+sample is `f` of a label, also when the sorted labels look like the ids `0..N-1` without being them. -/
+
+/-- the run on the labels `f 'labels` is the image under `f` of the run of the model over the naturals -/
+theorem C16_hyg_any_labels {α : Type} [DecidableEq α] (f : Nat → α) (hf : ∀ a b, f a = f b → a = b)
+    (labels : List Nat) (edges : Config) (t : OwnTape) :
+    sampleFromHygG (labels.map f) (edges.map (List.map f)) t
+      = (sampleFromHyg labels edges t).map (List.map (mapOut f)) := by
+  rw [sampleFromHygG_map f hf, sampleFromHygG_nat]
+
+/-- the clauses of the property for an initial hypergraph over labels of any type (hypotheses: the classes are
+listed without repetition in the order `f` carries over from the naturals, hyperedges are sets, the run returned):
+every sample has no repeated hyperedge, positive weights, only nodes that are labels of the initial hypergraph, only
+sizes of the initial hypergraph; no label exceeds its degree and no size its count; both are met exactly whenever no
+two hyperedges of the chain state coincide -/
+theorem C16_sample_hyg_any_labels {α : Type} [DecidableEq α] (f : Nat → α) (hf : ∀ a b, f a = f b → a = b)
+    (labels : List Nat) (edges : Config) (t : OwnTape) (outs : List (List (List α × Nat)))
+    (hl : labels.Pairwise (· < ·)) (he : AllNodup edges)
+    (h : sampleFromHygG (labels.map f) (edges.map (List.map f)) t = some outs) :
+    outs.length = t.thins.length ∧ ∀ k (hk : k < outs.length),
+      (outs[k].map (·.1)).Nodup ∧
+      (∀ p ∈ outs[k], 0 < p.2 ∧ p.1.Nodup ∧ (∀ x ∈ p.1, x ∈ labels.map f) ∧ ∃ e ∈ edges, p.1.length = e.length) ∧
+      (∀ x ∈ labels, degOfG (f x) (outs[k].map (·.1)) ≤ degOfG (f x) (edges.map (List.map f))) ∧
+      (∀ s, sizeCountG s (outs[k].map (·.1)) ≤ sizeCountG s (edges.map (List.map f))) ∧
+      ∃ y q, t.quantiles[k]? = some q ∧ outputStageG y (truncWeights q) (labels.map f) = some outs[k] ∧
+        ((y.map canon).Nodup →
+          (∀ x ∈ labels, degOfG (f x) (outs[k].map (·.1)) = degOfG (f x) (edges.map (List.map f))) ∧
+          (∀ s, sizeCountG s (outs[k].map (·.1)) = sizeCountG s (edges.map (List.map f)))) := by
+  rw [C16_hyg_any_labels f hf] at h
+  cases hn : sampleFromHyg labels edges t with
+  | none => simp [hn] at h
+  | some outsN =>
+    simp only [hn, Option.map_some, Option.some.injEq] at h
+    subst h
+    obtain ⟨c1, c2⟩ := C16_sample_hyg labels edges t outsN hl he hn
+    refine ⟨by simpa using c1, ?_⟩
+    intro k hk
+    have hk' : k < outsN.length := by simpa using hk
+    obtain ⟨⟨v1, v2⟩, n1, d1, s1, y, q, hq, ho, hex⟩ := c2 k hk'
+    have hfl : ∀ a b : List Nat, a.map f = b.map f → a = b := fun a b e => (List.map_inj_right hf).mp e
+    have hget : (outsN.map (mapOut f))[k] = mapOut f outsN[k] := by simp
+    rw [hget, keys_mapOut]
+    have hdeg : ∀ x, degOfG (f x) ((outsN[k].map (·.1)).map (List.map f)) = degOf x (outsN[k].map (·.1)) := by
+      intro x; rw [degOfG_map f hf, degOfG_nat]
+    have hdeg0 : ∀ x, degOfG (f x) (edges.map (List.map f)) = degOf x edges := by
+      intro x; rw [degOfG_map f hf, degOfG_nat]
+    have hsz : ∀ s, sizeCountG s ((outsN[k].map (·.1)).map (List.map f)) = sizeCount s (outsN[k].map (·.1)) := by
+      intro s; rw [sizeCountG_map, sizeCountG_nat]
+    have hsz0 : ∀ s, sizeCountG s (edges.map (List.map f)) = sizeCount s edges := by
+      intro s; rw [sizeCountG_map, sizeCountG_nat]
+    refine ⟨nodup_map_inj _ hfl v1, ?_, ?_, ?_, y, q, hq, ?_, ?_⟩
+    · intro p hp
+      obtain ⟨pN, hpN, rfl⟩ := List.mem_map.mp hp
+      obtain ⟨w1, w2⟩ := v2 pN hpN
+      obtain ⟨m1, m2⟩ := n1 pN hpN
+      refine ⟨w1, nodup_map_inj f hf (w2.imp (fun hab => Nat.ne_of_lt hab)), ?_, ?_⟩
+      · intro x hx
+        obtain ⟨x0, hx0, rfl⟩ := List.mem_map.mp hx
+        exact List.mem_map_of_mem (m1 x0 hx0)
+      · obtain ⟨e, he1, he2⟩ := m2
+        exact ⟨e, he1, by simpa using he2⟩
+    · intro x hx; rw [hdeg, hdeg0]; exact d1 x hx
+    · intro s; rw [hsz, hsz0]; exact s1 s
+    · rw [outputStageG_map f hf, outputStageG_nat, ho]; rfl
+    · intro hnd
+      obtain ⟨e1, e2⟩ := hex hnd
+      exact ⟨fun x hx => by rw [hdeg, hdeg0]; exact e1 x hx, fun s => by rw [hsz, hsz0]; exact e2 s⟩
+
 /-- the generated sequence is a stream: the first `k` samples do not depend on how many samples are drawn afterwards
 (same initial configuration, same draws for the first `k` blocks) -/
 theorem C16_sequence_prefix (cfg fixed : Config) (labels : Option (List Nat)) (t : OwnTape)
@@ -797,3 +872,15 @@ example : runSession true ⟨some false⟩
      some ⟨some false, [[([0, 2], 1), ([0, 1], 5)]]⟩,
      some ⟨some true, [[([0, 1, 3], 1), ([0, 1, 2], 2)]]⟩,
      some ⟨some true, [[([0, 1, 2], 2), ([0, 3], 1)]]⟩] := by decide
+
+-- C16_hyg_any_labels / C16_sample_hyg_any_labels: the generic code on labels that are no naturals.  Integer labels
+-- -1, 0, 1, 3: sorted they end at N-1 = 3 without being the ids 0..3; no step before the first sample (it is the initial
+-- hypergraph, the zero quantile gives weight 1), one accepted proposal before the second - no internal id (2) shows up
+example : sampleFromHygG ([-1, 0, 1, 3] : List Int) [[3, -1], [0, 1, 3], [1, -1]]
+    ⟨[], [], [[], [⟨0, 1, [2], true⟩]], [[1, 0, 3], [2, 1, 1]]⟩ =
+    some [[([-1, 3], 1), ([0, 1, 3], 1), ([-1, 1], 3)], [([1, 3], 2), ([-1, 0, 3], 1), ([-1, 1], 1)]] := by decide
+-- string labels; the same draws as in the example of C16_sample_hyg (labels 10..50): the image under 10 ↦ "a", ...
+example : sampleFromHygG ["a", "b", "c", "d", "e"] [["a", "b", "c"], ["c", "d"], ["b", "e"]]
+    ⟨[], [⟨0, 1, [1, 3], true⟩], [[⟨2, 1, [0, 4], true⟩], []], [[1, 2, 2], [1, 0, 3]]⟩ =
+    some [[(["b", "c", "d"], 1), (["b", "c"], 2), (["a", "e"], 2)], [(["b", "c", "d"], 1), (["b", "c"], 1), (["a", "e"], 3)]] := by
+  decide
